@@ -173,3 +173,62 @@ Proof.
   vm_compute. discriminate.
 Qed.
 Print Assumptions C10_shared_length_is_needed.
+
+(* ---- the PHYSICAL instance: real positions R^3, proper rotations SO(3) (Lib/RigidR3.v).
+   The two main theorems, instantiated; they depend on the standard-library reals axioms and on
+   proof irrelevance (equality of rotations = equality of their matrices). *)
+From MV Require Import Lib.RigidR3.
+
+Theorem C10_relative_pose_invariant_R3 :
+  forall (t : @node R3Ops) (g dl : tpath) (c d : @node R3Ops) (h : list (tpath * @op R3Ops)),
+  wf_tree t -> subtree_at g t = Some c -> subtree_at dl c = Some d ->
+  zlen (pos (nobj c)) = zlen (pos (nobj d)) ->
+  Forall (fun px => wf_op (snd px) /\
+            (is_prefix (fst px) g = true \/ is_prefix (fst px) (g ++ dl) = false)) h ->
+  exists c' d' b lo hi,
+    subtree_at g (tree_run t h) = Some c' /\ subtree_at dl c' = Some d' /\
+    wf (nobj c') /\ wf (nobj d') /\ zlen (pos (nobj c')) = zlen (pos (nobj d')) /\
+    0 <= lo <= hi /\ hi <= zlen (pos (nobj c)) - 1 /\
+    forall i, 0 <= i < zlen (pos (nobj c')) ->
+      rel_pose (nobj c') (nobj d') i = rel_pose (nobj c) (nobj d) (clampZ (i - b) lo hi).
+Proof. exact (@relative_pose_invariant R3Ops R3Laws). Qed.
+
+Theorem C10_own_sensor_field_invariant_R3 :
+  forall (t : @node R3Ops) (g : tpath) (c : @node R3Ops) (h : list (tpath * @op R3Ops)),
+  wf_tree t -> subtree_at g t = Some c ->
+  Forall (fun px => wf_op (snd px) /\
+            (is_prefix (fst px) g = true \/
+             (is_prefix (fst px) g = false /\ is_prefix g (fst px) = false))) h ->
+  exists c' b lo hi,
+    subtree_at g (tree_run t h) = Some c' /\
+    0 <= lo <= hi /\ hi <= zlen (pos (nobj c)) - 1 /\
+    forall ds s dd d,
+      subtree_at ds c = Some s -> zlen (pos (nobj s)) = zlen (pos (nobj c)) ->
+      subtree_at dd c = Some d -> zlen (pos (nobj d)) = zlen (pos (nobj c)) ->
+      exists s' d', subtree_at ds c' = Some s' /\ subtree_at dd c' = Some d' /\
+        zlen (pos (nobj s')) = zlen (pos (nobj c')) /\ zlen (pos (nobj d')) = zlen (pos (nobj c')) /\
+        forall (f : V3 -> V3) (x : V3) i, 0 <= i < zlen (pos (nobj c')) ->
+          elem_field (O := R3Ops) f x (pose_at (nobj s') i) (pose_at (nobj d') i) =
+          elem_field (O := R3Ops) f x (pose_at (nobj s) (clampZ (i - b) lo hi))
+                                      (pose_at (nobj d) (clampZ (i - b) lo hi)).
+Proof. exact (@own_sensor_field_invariant R3Ops R3Laws). Qed.
+
+Print Assumptions C10_relative_pose_invariant_R3.
+Print Assumptions C10_own_sensor_field_invariant_R3.
+
+(* non-vacuity over the reals: a collection holding one child, rotated by 90 degrees about z *)
+From Coq Require Import Reals.
+Example C10_nonvacuous_R3 :
+  let t : @node R3Ops :=
+    Node (init_pose (O := R3Ops) (Scalar (0, 0, 0)%R) None)
+         [Node (init_pose (O := R3Ops) (Scalar (1, 0, 0)%R) None) []] in
+  wf_tree t /\
+  Forall (fun px : tpath * @op R3Ops => wf_op (snd px) /\
+            (is_prefix (fst px) [] = true \/ is_prefix (fst px) ([] ++ [0%nat]) = false))
+         [([], Rotate (Scalar rotz90) None None)].
+Proof.
+  cbv zeta. split.
+  - cbn. unfold wf. cbn. repeat split; try reflexivity; try (intro; discriminate).
+  - repeat constructor; cbn; try reflexivity; try (intro; discriminate).
+Qed.
+Print Assumptions C10_nonvacuous_R3.
